@@ -9,24 +9,25 @@ TECHNIQUE = ("Coq proofs of the round trip of every codec gmsm owns over functio
              "extracted models on the same inputs and comparing every produced byte; PEM/PBKDF2/AES paths and loaders checked by the property predicate")
 LEVEL_TEXT = ("Theorems in Coq (Props/C14.v), for ALL values: hexadecimal private key (every d; refusal exactly for d >= n-1) and public key (x, y < 2^256); "
               "Compress/Decompress on every point of any curve over a prime field p = 3 mod 4 and rejection of wrong length/tag/x >= p/non-residues; "
-              "ASN.1 signature for all r, s >= 0; ASN.1 ciphertext with exact restoration of 32-byte coordinates; PKCS#8 plain for every d < n (short "
+              "ASN.1 signature for all r, s >= 0 below 2^21 bytes; ASN.1 ciphertext (below 4 MiB) with exact restoration of 32-byte coordinates; PKCS#8 plain for every d < n (short "
               "D.Bytes() re-padded, trailing bytes ignored); PKIX public key; PKCS#8 password-protected with PBKDF2/AES-CBC abstract; the wrong-password "
-              "disjunction; decision logic of X509KeyPair / GMX509KeyPairs / GMX509KeyPairsSingle accepts <=> key matches certificate(s). "
+              "disjunction; decision logic of X509KeyPair / GMX509KeyPairs / GMX509KeyPairsSingle accepts <=> key matches certificate(s), including which PEM "
+              "block is used (first CERTIFICATE, first *PRIVATE KEY block, readable formats). "
               "The models are extracted and compared byte for byte with /repo (hex strings, compressed points, DER of signatures, ciphertexts and PKCS#8).")
-LEVEL_NOTE = ("compress_decompress has the premises prime p and Fermat's little theorem for p (explicit hypotheses; instantiated and proved for a toy "
-              "field, not for the 256-bit SM2 prime - DESIGN section 8). Modelled by contract, not verified: PEM armour, encoding/asn1's struct handling, "
+LEVEL_NOTE = ("compress_decompress has the single mathematical premise prime p (proved for a toy field, a premise for the 256-bit SM2 prime - DESIGN "
+              "section 8); Fermat's little theorem is proved in Coq (Ser/Fermat.v, from mathcomp's fermat_little, transferred to Z). Modelled by contract, not verified: PEM armour, encoding/asn1's struct handling, "
               "math/big, encoding/hex, elliptic.Marshal/Unmarshal, ScalarBaseMult (abstract), PBKDF2 and AES-CBC (abstract with dec after enc = id). "
               "wrong_password_outcome is the disjunction 'error or the garbage parses as a key'; that the second case does not happen is measured, not "
               "proved. For RSA/ECDSA pairs the loader theorem carries the side condition that an ECDSA key is on its certificate's curve (the code compares "
               "X, Y only; RSA: modulus only); GMX509KeyPairs accepts SM2 pairs only (RSA pairs are outside its domain).")
 TRUSTED_BASE = [
-    "models coq/Ser/SerModel.v, coq/Ser/SerBytes.v written by hand from x509/utils.go, x509/pkcs8.go, sm2/utils.go, sm2/sm2.go, gmtls/tls.go, gmtls/gm_support.go",
+    "models coq/Ser/SerModel.v, coq/Ser/SerBytes.v (DER pieces: coq/SM2/DER.v through Ser/SerDER.v) written by hand from x509/utils.go, x509/pkcs8.go, sm2/utils.go, sm2/sm2.go, gmtls/tls.go, gmtls/gm_support.go",
     "extraction: ExtrOcamlBasic + ExtrOcamlZBigInt (positive, N, Z -> zarith Big_int_Z and its arithmetic constants); runner ocaml/ser/main.ml",
     "Go driver harness/cmd/c14: classification of certificate / key material for the loader cases (parsed with gmsm's and the standard parsers)",
     "python predicate of this module (independent re-statement of each round trip, Euler criterion for Decompress)",
 ]
 ASSUMPTIONS = [
-    "compress_decompress: prime p, p = 3 mod 4, a^(p-1) = 1 mod p for 0 < a < p (premises of the theorem)",
+    "compress_decompress: prime p (premise of the theorem; p = 3 mod 4 and p <= 2^256 are computed for the SM2 prime)",
     "PBKDF2 / AES-CBC abstract: cbc_dec key iv (cbc_enc key iv m) = m on whole blocks, length preserving",
     "encoding/asn1 returns what was marshalled and ignores bytes after the outer structure (contract)",
     "loader theorems are about the decision logic over parsed key / certificate kinds; parsing itself is the contract of the parsers",
@@ -37,7 +38,7 @@ RULE = ("seeded generator (VERIF_SEED): d with 1..3 leading zero bytes, odd hex-
         "ciphertexts with short and zero coordinates and payload lengths 0..300, crafted DER (33-byte, negative, wrong hash length, trailing bytes); PKCS#8 "
         "with crafted private-key octets (short, over-long with zeros, >= n); passwords {empty, 1 char, ASCII, UTF-8, 1 KiB, binary, trailing space} x 9 "
         "wrong variants (one character, case, length, nil); every loader x all certificate/key material pairs (3 SM2 file pairs, 3 fresh SM2 pairs incl. "
-        "leading-zero coordinates, 2 RSA, 1 ECDSA P-256, garbage, and for three SM2 certificates the key n-d: same X, other Y; the near-miss combinations of the dual loader are always included). Non-trivial: input not empty; distinct = distinct case text")
+        "leading-zero coordinates, 2 RSA, 1 ECDSA P-256, garbage, and for three SM2 certificates the key n-d: same X, other Y; the near-miss combinations of the dual loader are always included); composed PEM files for each loader (chain after / before the leaf, skipped blocks, PKCS#8 SM2 under 'EC PRIVATE KEY', SEC 1, encrypted, Ed25519, several key blocks, swapped inputs, empty). Non-trivial: input not empty; distinct = distinct case text")
 
 P = 0xFFFFFFFEFFFFFFFFFFFFFFFFFFFFFFFFFFFFFFFF00000000FFFFFFFFFFFFFFFF
 A = P - 3
@@ -54,8 +55,8 @@ def nontrivial(f):
 
 
 def classify(f, io):
-    if f[0] == "LD":
-        return "LD:" + f[2] + ":" + (" ".join(io[:2]) if io else "none")
+    if f[0] in ("LD", "LP"):
+        return f[0] + ":" + f[2] + ":" + (" ".join(io[:2]) if io else "none")
     return f[0] + ":" + (io[0] if io else "none")
 
 
@@ -185,6 +186,41 @@ def predicate(f, io):
             return False, "%s accepted a key that does not match the certificate" % f[2]
         if want and not got:
             return False, "%s rejected a matching certificate/key pair" % f[2]
+        return True, ""
+    if op == "LP":
+        def offered(cf, kf):
+            """(cert desc, key desc) the loader is specified to look at: first CERTIFICATE block, first block labelled as a
+            private key; key readable only as PKCS#1 RSA / PKCS#8 RSA, ECDSA, SM2"""
+            cb = [b.split("/") for b in cf.split(",")] if cf != "-" else []
+            kb = [b.split("/") for b in kf.split(",")] if kf != "-" else []
+            certs = [b for b in cb if b[0] == "CERTIFICATE"]
+            keys = [b for b in kb if b[0] == "PRIVATE_KEY" or b[0].endswith("_PRIVATE_KEY")]
+            if not certs or not keys:
+                return None
+            c = certs[0][1][5:] if certs[0][1].startswith("cert=") else "bad"
+            k = keys[0][1]
+            if k.startswith("p1rsa=") or k.startswith("p8rsa="):
+                kd = "rsa:" + k.split("=", 1)[1]
+            elif k.startswith("p8ec="):
+                kd = "ecdsa:" + k.split("=", 1)[1]
+            elif k.startswith("p8sm2="):
+                kd = "sm2:" + k.split("=", 1)[1]
+            else:
+                return None
+            return c, kd
+        if io[0] != "ok":
+            return False, "loader crashed"
+        a = offered(f[3], f[4])
+        if f[2] == "GMX509KeyPairs":
+            b = offered(f[5], f[6])
+            want = a is not None and b is not None and _sm2_match(*a) and _sm2_match(*b)
+        else:
+            want = a is not None and _pair_match(*a)
+        got = io == ["ok", "1"]
+        if got and not want:
+            return False, "%s accepted PEM input whose first certificate / first key block do not form a matching pair" % f[2]
+        if want and not got:
+            return False, "%s rejected PEM input whose first certificate and first key block match" % f[2]
         return True, ""
     # SD, CU, PK: decided by comparison with the model (decoders of arbitrary bytes)
     return True, ""
